@@ -139,7 +139,7 @@ prop('C10', 'pser', 'fault_enumeration',
      T(8, 120, 16, 2500),
      'structured fault enumeration over generated valid streams (rapid) with guard pages, plus a consistency battery as oracle for accepted input',
      'truncations exhaustive per base stream up to 2 KiB; corruption catalogue = negation of each well-formedness conjunct; no claim beyond the catalogue + generated bases',
-     'trusted: independent encoders; mmap/mprotect guard semantics; the battery uses the bitmap\'s own ToArray as reference after checking it is a strictly increasing, chunk-consistent list', SER_ASSUME, run='^TestC10')
+     'trusted: independent encoders; mmap/mprotect guard semantics; the battery uses the bitmap\'s own ToArray as reference after checking it is a strictly increasing, chunk-consistent list', SER_ASSUME, run='^TestC10', fuzz=[('pser', 'FuzzDecode32', 150)])
 
 prop('C08', 'pser', 'exploration',
      'rapid draws valid portable or frozen bytes (independent encoder), places them in a PROT_READ mapping flush against PROT_NONE guard pages (front or back), loads them with FromBuffer / FromUnsafeBytes / FrozenView and runs a state machine over the loaded bitmap and everything derived from it: point/range/bulk mutations, rules that empty a chunk or drop all leading chunks (the key table must shift), '
@@ -165,7 +165,7 @@ prop('C18', 'p64', 'fault_enumeration',
      T(8, 60, 16, 1200),
      'property-based round-trip testing + structured fault enumeration with child-process isolation for attacker-sized counts',
      'generated round trips; truncations exhaustive up to 1 KiB per base stream; count corruptions enumerated from a fixed list',
-     'trusted: independent 64-bit codec; RLIMIT_AS semantics', SER_ASSUME, run='^TestC18$')
+     'trusted: independent 64-bit codec; RLIMIT_AS semantics', SER_ASSUME, run='^TestC18$', fuzz=[('p64', 'FuzzDecode64', 120)])
 
 BSI_ASSUME = ['the BSI reference model is a map column -> math/big.Int maintained by the harness', 'values and comparison constants are kept inside the range the index was created or auto-sized for (documented precondition)',
               'known findings (KNOWN_FINDINGS.json) are excluded by construction and counted under classes "avoided:*"; their literal inputs are re-run by TestRegress* and reported as KNOWN-FINDING lines while they reproduce']
